@@ -191,7 +191,21 @@ def check(cx):
                         escaped.append(s["l"])
                 t = b["term"]
                 if t["t"] == "switch" and op_local(t["o"]) in holders:
-                    tested.append(t.get("l", 0))
+                    # `if negated { !x } else { x }` is fine; `!negated && x` is a switch one arm of which
+                    # stores a *constant* into the join local (the base predicate is ignored in that polarity)
+                    arms = set([x[1] for x in t["targets"]] + [t["otherwise"]])
+                    const_arm = False
+                    for a in arms:
+                        ab = f.blocks[a]
+                        if ab["term"]["t"] == "goto" and len(ab["stmts"]) >= 1:
+                            st = ab["stmts"][-1]
+                            k = op_const(st["rv"]["o"][0]) if st["rv"].get("r") == "use" else None
+                            if k is not None and k.get("ty") == "bool" and f.locals[st["dst"][0]] == "bool":
+                                const_arm = True
+                    if const_arm:
+                        tested.append(t.get("l", 0))
+                    else:
+                        combined.append(t.get("l", 0))
                 if t["t"] == "call":
                     for o in t["args"]:
                         if op_local(o) in holders:
